@@ -199,6 +199,8 @@ func runC07(c *Ctx, tier string) {
 
 	// D6
 	runSummarizeSiblingGuards(c, "C07-D6")
+	runDemandCoverage(c, "C07-D7")
+	runFilterPushdownKept(c, "C07-D8")
 	// D2
 	runLegsGetCopies(c, "C07-D2")
 	// D3
